@@ -7,6 +7,10 @@ import NavisModel.Proofs.BackendLemmas
 import NavisModel.Proofs.SegmentVariantsLemmas
 import NavisModel.Proofs.FlowVariantsLemmas
 import NavisModel.Proofs.ComponentLemmas
+import NavisModel.Model.BackendOps
+import NavisModel.Props.C01
+import NavisModel.Props.C05
+import NavisModel.Props.C17
 /-!
 # C04 — results do not depend on the compute back-end
 
@@ -343,6 +347,465 @@ one) and the networkx branch (follow the parents) reverse the same path — any 
 theorem reroot_path_igraph_eq_nx (t : Table) (hw : WF t) (r : Int) (hr : r ∈ ids t) :
     rerootPathIgraph t r = some (rerootPathNx t r) := rerootPath_igraph_eq_nx hw hr
 
+/-! ### history form: after any sequence of the modelled operations all back-ends agree
+
+`applyOpBE be` (`Model/BackendOps.lean`) is the operation language of C01/C10 with the back-end explicit:
+with igraph (default and navis-fastcore configuration) `reroot` takes its path from the shortest paths to
+all roots and `cut` decomposes the graph after deleting one edge; with networkx both walk the graph. -/
+
+/-- The igraph branch of `reroot_skeleton` returns the same table (parents and labels) as the networkx
+branch — every well-formed forest, every node (absent, root or not). -/
+theorem reroot_igraph_eq_nx (t : Table) (hw : WF t) (r : Int) : rerootIgraph t r = reroot t r := by
+  unfold rerootIgraph reroot
+  cases hf : find? t r with
+  | none => rfl
+  | some nr =>
+    simp only
+    split
+    · rfl
+    · have hr : r ∈ ids t := mem_ids.mpr ⟨nr, find?_some hf⟩
+      rw [rerootPath_igraph_eq_nx hw hr]
+      rfl
+
+/-- One operation: every back-end computes what the back-end-free model `applyOp` computes. -/
+theorem op_backend_independent (be : Backend) (t : Table) (hw : WF t) (op : Op) : applyOpBE be t op = applyOp t op := by
+  have hcut : ∀ c, cutBE be t c = cut t c := by
+    intro c
+    unfold cutBE; split
+    · exact cut_decompose_eq_cut t hw c
+    · rfl
+  cases op with
+  | reroot r =>
+    show rerootBE be t r = reroot t r
+    unfold rerootBE
+    split
+    · exact reroot_igraph_eq_nx t hw r
+    · rfl
+  | cutDistal c =>
+    show (match cutBE be t c with | some (d, _) => d | none => t) = _
+    rw [hcut c]; rfl
+  | cutProximal c =>
+    show (match cutBE be t c with | some (_, p) => p | none => t) = _
+    rw [hcut c]; rfl
+  | subset k => rfl
+  | removeNodes w => rfl
+  | downsample f p => rfl
+  | reclassify => rfl
+
+/-- **History form**: after ANY sequence of the modelled operations (subset, reroot, cut distal / proximal,
+remove_nodes, downsample, re-classify) started from a well-formed forest, every back-end holds the table the
+back-end-free model holds — by induction over the sequence, using that every operation preserves
+well-formedness (C01). -/
+theorem ops_backend_independent (be : Backend) (t : Table) (hw : WF t) (ops : List Op) :
+    ops.foldl (applyOpBE be) t = ops.foldl applyOp t := by
+  induction ops generalizing t with
+  | nil => rfl
+  | cons op ops ih =>
+    simp only [List.foldl_cons]
+    rw [op_backend_independent be t hw op]
+    exact ih (applyOp t op) (Navis.Props.C01.op_preserves_WF t hw op)
+
+/-- … hence any two back-ends agree after any history, and the common result is well-formed. -/
+theorem ops_backends_agree (be be' : Backend) (t : Table) (hw : WF t) (ops : List Op) :
+    ops.foldl (applyOpBE be) t = ops.foldl (applyOpBE be') t ∧ WF (ops.foldl (applyOpBE be) t) := by
+  rw [ops_backend_independent be t hw ops, ops_backend_independent be' t hw ops]
+  exact ⟨rfl, Navis.Props.C01.ops_preserve_WF t hw ops⟩
+
+/-- Mixed histories: the back-end may even change between steps (`config.use_igraph` toggled, fastcore
+(un)installed) without any effect on the result. -/
+theorem ops_backend_schedule_independent (t : Table) (hw : WF t) (steps : List (Backend × Op)) :
+    steps.foldl (fun acc s => applyOpBE s.1 acc s.2) t = (steps.map Prod.snd).foldl applyOp t := by
+  induction steps generalizing t with
+  | nil => rfl
+  | cons s steps ih =>
+    simp only [List.foldl_cons, List.map_cons]
+    rw [op_backend_independent s.1 t hw s.2]
+    exact ih (applyOp t s.2) (Navis.Props.C01.op_preserves_WF t hw s.2)
+
+/-! ### consequences for the observables computed after a history -/
+
+/-- After any history the Python Strahler sweep on any back-end's table is the recurrence on the model's
+table (labels are re-established by `classify`, which the sweep's hypothesis asks for). -/
+theorem strahler_after_ops (be : Backend) (t : Table) (hw : WF t) (ops : List Op) (g : Bool) (pick : Sweep.St → Nat) :
+    ∃ col, Sweep.sweep (classify (ops.foldl (applyOpBE be) t)) g [] pick = some col ∧
+      ∀ i ∈ ids (ops.foldl applyOp t), col i = strahler (classify (ops.foldl applyOp t)) g [] i := by
+  rw [ops_backend_independent be t hw ops]
+  have hw' := WF_classify (Navis.Props.C01.ops_preserve_WF t hw ops)
+  obtain ⟨col, h1, h2⟩ := strahler_sweep_eq_rec _ hw' (labelsOKB_classify _) g pick
+  exact ⟨col, h1, fun i hi => h2 i (by rw [ids_classify]; exact hi)⟩
+
+/-! ### further consequences of the refinement theorems -/
+
+/-- The sweep's index is at least 1 everywhere and never decreases towards the root. -/
+theorem strahler_sweep_ge_one_and_monotone (t : Table) (hw : WF t) (hl : labelsOKB t = true) (g : Bool)
+    (pick : Sweep.St → Nat) :
+    ∃ col, Sweep.sweep t g [] pick = some col ∧ (∀ i ∈ ids t, 1 ≤ col i) ∧
+      ∀ i ∈ ids t, ∀ c ∈ children t i, col c ≤ col i := by
+  obtain ⟨col, h1, h2⟩ := strahler_sweep_eq_rec t hw hl g pick
+  refine ⟨col, h1, fun i hi => ?_, fun i hi c hc => ?_⟩
+  · rw [h2 i hi]; exact Navis.Props.C17.strahler_ge_one t hw g i hi
+  · rw [h2 i hi, h2 c (Flow.child_facts hw hi hc).1]
+    exact Navis.Props.C17.strahler_monotone t hw g i c hi hc
+
+/-- The sweep's column is accepted by the recurrence checker that the driver runs on navis' output — and
+every accepted column is the sweep's. -/
+theorem strahler_sweep_passes_checker (t : Table) (hw : WF t) (hl : labelsOKB t = true) (g : Bool) (pick : Sweep.St → Nat) :
+    ∃ col, Sweep.sweep t g [] pick = some col ∧ Flow.strahlerOKB t g col = true ∧
+      ∀ v, Flow.strahlerOKB t g v = true → ∀ i ∈ ids t, v i = col i := by
+  obtain ⟨col, h1, h2⟩ := strahler_sweep_eq_rec t hw hl g pick
+  refine ⟨col, h1, (Navis.Props.C17.strahler_checker_sound t hw g col).mpr h2, fun v hv i hi => ?_⟩
+  rw [h2 i hi]; exact (Navis.Props.C17.strahler_checker_sound t hw g v).mp hv i hi
+
+/-- Both variants of `_generate_segments` and the networkx variant of `_break_segments` add up to the cable length. -/
+theorem segment_builders_sum_to_cable (t : Table) (hw : WF t) (hl : labelsOKB t = true) (len : Int → Int → Nat) :
+    (∃ segs, SegVar.genNx t len = some segs ∧ SegVar.genIgraph t len = some segs ∧
+      (segs.map (pathLen len)).sum = cable t len) ∧
+    (∃ segs, SegVar.breakNx t = some segs ∧ (segs.map (pathLen len)).sum = cable t len) := by
+  obtain ⟨segs, h1, h2, h3⟩ := generate_segments_pass_checker t hw hl len
+  refine ⟨⟨segs, h1, h2, Navis.Props.C05.segment_lengths_sum_to_cable t hw len segs h3⟩, ?_⟩
+  exact ⟨smallSegments t, break_segments_nx_eq_model t hw hl, Navis.Props.C05.smallSegments_sum_to_cable t hw len⟩
+
+/-- The igraph variant of `_break_segments` (any seed order) adds up to the cable length as well. -/
+theorem break_segments_igraph_sum_to_cable (t : Table) (hw : WF t) (hl : labelsOKB t = true) (len : Int → Int → Nat)
+    (seeds : List Nat) (hs : seeds.Perm (SegVar.seedsIdx t)) :
+    ∃ segs, SegVar.breakIgraphFrom t seeds = some segs ∧ (segs.map (pathLen len)).sum = cable t len := by
+  obtain ⟨segs, h1, h2⟩ := break_segments_igraph_perm_model t hw hl seeds hs
+  refine ⟨segs, h1, ?_⟩
+  rw [(h2.map (pathLen len)).sum_nat]
+  exact Navis.Props.C05.smallSegments_sum_to_cable t hw len
+
+/-- **The Python path of `synapse_flow_centrality` counts paths**: its value at every node is the number of
+(postsynapse, presynapse) pairs whose tree path runs through the node in the mode's direction (forks: the
+largest child's count) — the C17 specification, so it passes the checker run on navis' column. -/
+theorem synapse_flow_python_counts_paths (t : Table) (hw : WF t) (hl : labelsOKB t = true) (m : Flow.Mode)
+    (pre post : List Int) (segs : List (List Int)) (hperm : segs.Perm (smallSegments t)) :
+    ∃ col, FlowVar.sfcPython t m pre post segs = some col ∧ (∀ i ∈ ids t, col i = Flow.sfcSpec t m pre post i) ∧
+      Flow.sfcOKB t m pre post col = true := by
+  obtain ⟨col, h1, h2⟩ := synapse_flow_python_eq_formula t hw hl m pre post segs hperm
+  refine ⟨col, h1, fun i hi => by rw [h2 i hi, Flow.sfcSpec_eq hw], ?_⟩
+  exact (Navis.Props.C17.flow_checker_sound t hw m pre post col).mpr (fun r hr => h2 r.id (mem_ids_of_mem hr))
+
+/-- Order independence of the Python synapse-flow propagation: any two listings of the small segments
+(igraph iterates a set) give the same column. -/
+theorem synapse_flow_python_order_independent (t : Table) (hw : WF t) (hl : labelsOKB t = true) (m : Flow.Mode)
+    (pre post : List Int) (segs segs' : List (List Int)) (h : segs.Perm (smallSegments t)) (h' : segs'.Perm (smallSegments t)) :
+    ∃ col col', FlowVar.sfcPython t m pre post segs = some col ∧ FlowVar.sfcPython t m pre post segs' = some col' ∧
+      ∀ i ∈ ids t, col i = col' i := by
+  obtain ⟨col, h1, h2⟩ := synapse_flow_python_eq_formula t hw hl m pre post segs h
+  obtain ⟨col', h1', h2'⟩ := synapse_flow_python_eq_formula t hw hl m pre post segs' h'
+  exact ⟨col, col', h1, h1', fun i hi => by rw [h2 i hi, h2' i hi]⟩
+
+/-- The closures are symmetric … -/
+theorem components_closure_symm (t : Table) (hw : WF t) (i j : Int) (hi : i ∈ ids t) (hj : j ∈ ids t) :
+    j ∈ componentClosure t i ↔ i ∈ componentClosure t j := by
+  rw [components_closure_iff_same_root t hw i hi j, components_closure_iff_same_root t hw j hj i]
+  exact ⟨fun h => ⟨hi, h.2.symm⟩, fun h => ⟨hj, h.2.symm⟩⟩
+
+/-- … and transitive: they partition the table exactly like fastcore's root labels. -/
+theorem components_closure_trans (t : Table) (hw : WF t) (i j k : Int) (hi : i ∈ ids t) (hj : j ∈ ids t)
+    (h1 : j ∈ componentClosure t i) (h2 : k ∈ componentClosure t j) : k ∈ componentClosure t i := by
+  rw [components_closure_iff_same_root t hw i hi] at h1 ⊢
+  rw [components_closure_iff_same_root t hw j hj] at h2
+  exact ⟨h2.1, h2.2.trans h1.2⟩
+
+/-! ### more back-end equivalences derived from the refinements -/
+
+/-- `distal_to`: igraph asks whether the directed (child→parent) distance from `a` to `b` is finite,
+networkx whether `a` occurs among the nodes that reach `b` — the same relation (`a` is distal to `b`). -/
+theorem distal_to_igraph_eq_nx (t : Table) (len : Int → Int → Nat) (a b : Int) (ha : a ∈ ids t) :
+    (geo t len true a b).isSome ↔ a ∈ distalSet t b := by
+  rw [geo_directed_isSome_iff, mem_distalSet]
+  exact ⟨fun h => ⟨ha, h⟩, fun h => h.2⟩
+
+/-- All three classifiers (parent column, igraph in-degrees, networkx total degrees) give every row the
+label its child count and parent demand. -/
+theorem classify_variants_agree (t : Table) (n : Node) :
+    classifyNode t n = labelOf (childCount t n.id) (n.parent < 0) ∧ classifyOldNode t n = classifyNode t n ∧
+      classifyOldNxNode t n = classifyOldNode t n :=
+  ⟨classifyNode_eq_labelOf t n, classify_old_eq_new t n, by rw [classify_old_nx_eq_new, classify_old_eq_new]⟩
+
+/-- `prune_by_strahler` on the Python path keeps the rows the model keeps: filtering by the sweep's column is
+filtering by the structural index, for every index set. -/
+theorem prune_by_strahler_sweep (t : Table) (hw : WF t) (hl : labelsOKB t = true) (pick : Sweep.St → Nat) (s : List Nat) :
+    ∃ col, Sweep.sweep t false [] pick = some col ∧
+      (t.filter fun n => !s.contains (col n.id)) = t.filter fun n => !s.contains (strahler t false [] n.id) := by
+  obtain ⟨col, h1, h2⟩ := strahler_sweep_eq_rec t hw hl false pick
+  refine ⟨col, h1, List.filter_congr fun n hn => ?_⟩
+  rw [h2 n.id (mem_ids_of_mem hn)]
+
+/-- With `to_ignore` (end nodes) the result does not depend on the pop order either. -/
+theorem strahler_sweep_ignore_order_independent (t : Table) (hw : WF t) (hl : labelsOKB t = true) (g : Bool)
+    (ign : List Int) (hign : ∀ l ∈ ign, l ∈ ids t → l ∈ Sweep.endNodes t) (pick pick' : Sweep.St → Nat) :
+    ∃ col col', Sweep.sweep t g ign pick = some col ∧ Sweep.sweep t g ign pick' = some col' ∧
+      ∀ i ∈ ids t, col i = col' i := by
+  obtain ⟨col, h1, h2⟩ := strahler_sweep_ignore_partial t hw hl g ign hign pick
+  obtain ⟨col', h1', h2'⟩ := strahler_sweep_ignore_partial t hw hl g ign hign pick'
+  exact ⟨col, col', h1, h1', fun i hi => by rw [h2 i hi, h2' i hi]⟩
+
+/-- After any history, on any back-end's table, the Python synapse-flow path gives the formula with the fork
+rule on the model's table. -/
+theorem synapse_flow_after_ops (be : Backend) (t : Table) (hw : WF t) (ops : List Op) (m : Flow.Mode) (pre post : List Int) :
+    ∃ col, FlowVar.sfcPython (classify (ops.foldl (applyOpBE be) t)) m pre post
+        (smallSegments (classify (ops.foldl (applyOpBE be) t))) = some col ∧
+      ∀ i ∈ ids (ops.foldl applyOp t), col i = Flow.sfc (classify (ops.foldl applyOp t)) true m pre post i := by
+  rw [ops_backend_independent be t hw ops]
+  have hw' := WF_classify (Navis.Props.C01.ops_preserve_WF t hw ops)
+  obtain ⟨col, h1, h2⟩ := synapse_flow_python_eq_formula _ hw' (labelsOKB_classify _) m pre post _ (List.Perm.refl _)
+  exact ⟨col, h1, fun i hi => h2 i (by rw [ids_classify]; exact hi)⟩
+
+/-- After any history both Python segment builders agree on any back-end's table and pass the C05 checker. -/
+theorem segments_after_ops (be : Backend) (t : Table) (hw : WF t) (ops : List Op) (len : Int → Int → Nat) :
+    ∃ segs, SegVar.genNx (classify (ops.foldl (applyOpBE be) t)) len = some segs ∧
+      SegVar.genIgraph (classify (ops.foldl (applyOpBE be) t)) len = some segs ∧
+      segmentsOKB (classify (ops.foldl applyOp t)) len segs = true := by
+  rw [ops_backend_independent be t hw ops]
+  exact generate_segments_pass_checker _ (WF_classify (Navis.Props.C01.ops_preserve_WF t hw ops)) (labelsOKB_classify _) len
+
+/-- After any history the components (by closure or by root label) of any back-end's table coincide. -/
+theorem components_after_ops (be : Backend) (t : Table) (hw : WF t) (ops : List Op) (i : Int)
+    (hi : i ∈ ids (ops.foldl applyOp t)) (j : Int) :
+    j ∈ componentClosure (ops.foldl (applyOpBE be) t) i ↔
+      j ∈ ids (ops.foldl applyOp t) ∧ rootOf (ops.foldl applyOp t) j = rootOf (ops.foldl applyOp t) i := by
+  rw [ops_backend_independent be t hw ops]
+  exact components_closure_iff_same_root _ (Navis.Props.C01.ops_preserve_WF t hw ops) i hi j
+
+/-- The C05 checker for small segments does not depend on the order of the list: any permutation of the
+model's small segments passes it. -/
+theorem smallSegmentsOKB_of_perm (t : Table) (hw : WF t) (segs : List (List Int)) (h : segs.Perm (smallSegments t)) :
+    smallSegmentsOKB t segs = true := by
+  unfold smallSegmentsOKB
+  rw [Bool.and_eq_true, List.all_eq_true]
+  refine ⟨fun s hs => smallSegments_shape hw s (h.mem_iff.mp hs), coversEdgesOnce_of_perm ?_⟩
+  exact ((h.filter _).flatMap_right _).trans (smallSegments_cover hw)
+
+/-- **The igraph variant of `_break_segments` passes the C05 checker for every iteration order of its seed
+set** (the networkx variant does by `break_segments_variants_agree`). -/
+theorem break_segments_igraph_pass_checker (t : Table) (hw : WF t) (hl : labelsOKB t = true) (seeds : List Nat)
+    (hs : seeds.Perm (SegVar.seedsIdx t)) :
+    ∃ segs, SegVar.breakIgraphFrom t seeds = some segs ∧ smallSegmentsOKB t segs = true := by
+  obtain ⟨segs, h1, h2⟩ := break_segments_igraph_perm_model t hw hl seeds hs
+  exact ⟨segs, h1, smallSegmentsOKB_of_perm t hw segs h2⟩
+
+/-- Rerooting to several nodes in turn (`reroot_skeleton(x, [r1, r2, …])`): every back-end ends in the model's
+table. -/
+theorem reroot_many_backend_independent (be : Backend) (t : Table) (hw : WF t) (rs : List Int) :
+    rs.foldl (rerootBE be) t = rerootMany t rs := by
+  unfold rerootMany
+  induction rs generalizing t with
+  | nil => rfl
+  | cons r rs ih =>
+    simp only [List.foldl_cons]
+    have : rerootBE be t r = reroot t r := op_backend_independent be t hw (.reroot r)
+    rw [this]
+    exact ih (reroot t r) (WF_reroot hw r)
+
+/-- `geodesic_matrix(from_=…)`: looking a source up by its label gives the same row on every back-end (the
+row of `a` is a function of `a` alone), and every requested source is present on both sides. -/
+theorem geodesic_from_rows_lookup (t : Table) (hw : WF t) (len : Int → Int → Nat) (directed : Bool) (limit : Option Nat)
+    (from_ : List Int) (hsub : ∀ i ∈ from_, i ∈ ids t) (a : Int) (row : List (Option Nat)) :
+    (a, row) ∈ geoLabelled t len directed limit (geoRowLabelsPython t from_) ↔
+      (a, row) ∈ geoLabelled t len directed limit (geoRowLabelsFastcore t from_) :=
+  (geodesic_from_rows_agree t hw len directed limit from_ hsub).1.mem_iff
+
+/-- Several cuts in a row (`cut_skeleton(x, [c1, c2, …])`): every back-end produces the model's list of
+fragments, in the same order. -/
+theorem cut_many_backend_independent (be : Backend) (t : Table) (hw : WF t) (cs : List Int) :
+    cutManyBE be t cs = cutMany t cs := by
+  unfold cutManyBE cutMany
+  have key : ∀ (cs : List Int) (frags : List Table), (∀ f ∈ frags, WF f) →
+      cs.foldl (cutStepBE be) frags = cs.foldl (fun frags c =>
+        match frags.findIdx? (fun f => (ids f).contains c) with
+        | none => frags
+        | some k =>
+          match frags[k]? with
+          | none => frags
+          | some f =>
+            match cut f c with
+            | none => frags
+            | some (d, p) => frags.take k ++ [d, p] ++ frags.drop (k + 1)) frags := by
+    intro cs
+    induction cs with
+    | nil => intro frags _; rfl
+    | cons c cs ih =>
+      intro frags hall
+      simp only [List.foldl_cons]
+      have hstep : cutStepBE be frags c = (match frags.findIdx? (fun f => (ids f).contains c) with
+          | none => frags
+          | some k =>
+            match frags[k]? with
+            | none => frags
+            | some f =>
+              match cut f c with
+              | none => frags
+              | some (d, p) => frags.take k ++ [d, p] ++ frags.drop (k + 1)) := by
+        unfold cutStepBE
+        cases frags.findIdx? (fun f => (ids f).contains c) with
+        | none => rfl
+        | some k =>
+          simp only
+          cases hk : frags[k]? with
+          | none => rfl
+          | some f =>
+            simp only
+            have hf : f ∈ frags := List.mem_of_getElem? hk
+            have : cutBE be f c = cut f c := by
+              unfold cutBE; split
+              · exact cut_decompose_eq_cut f (hall f hf) c
+              · rfl
+            rw [this]
+            cases cut f c with
+            | none => rfl
+            | some dp => rfl
+      rw [hstep]
+      apply ih
+      -- the new fragment list is well-formed again
+      intro g hg
+      cases hi : frags.findIdx? (fun f => (ids f).contains c) with
+      | none => rw [hi] at hg; exact hall g hg
+      | some k =>
+        rw [hi] at hg
+        simp only at hg
+        cases hk : frags[k]? with
+        | none => rw [hk] at hg; exact hall g hg
+        | some f =>
+          rw [hk] at hg
+          simp only at hg
+          have hf : f ∈ frags := List.mem_of_getElem? hk
+          cases hc : cut f c with
+          | none => rw [hc] at hg; exact hall g hg
+          | some dp =>
+            obtain ⟨d, p⟩ := dp
+            rw [hc] at hg
+            simp only at hg
+            obtain ⟨hd, hp, _⟩ := cut_some hc
+            rcases List.mem_append.mp hg with h | h
+            · rcases List.mem_append.mp h with h | h
+              · exact hall g (List.mem_of_mem_take h)
+              · rcases List.mem_cons.mp h with e | e
+                · rw [e, hd]; exact WF_subset (hall f hf) _
+                · have : g = p := by simpa using e
+                  rw [this, hp]; exact WF_subset (hall f hf) _
+            · exact hall g (List.mem_of_mem_drop h)
+  exact key cs [t] (by intro f hf; have : f = t := by simpa using hf
+                       rw [this]; exact hw)
+
+/-- The Python synapse-flow path fed with the small segments of the igraph variant of `_break_segments` (any
+seed order) — which is what `x.small_segments` is under igraph — still gives the formula with the fork rule. -/
+theorem synapse_flow_python_on_igraph_segments (t : Table) (hw : WF t) (hl : labelsOKB t = true) (m : Flow.Mode)
+    (pre post : List Int) (seeds : List Nat) (hs : seeds.Perm (SegVar.seedsIdx t)) :
+    ∃ segs col, SegVar.breakIgraphFrom t seeds = some segs ∧ FlowVar.sfcPython t m pre post segs = some col ∧
+      ∀ i ∈ ids t, col i = Flow.sfc t true m pre post i := by
+  obtain ⟨segs, h1, h2⟩ := break_segments_igraph_perm_model t hw hl seeds hs
+  obtain ⟨col, h3, h4⟩ := synapse_flow_python_eq_formula t hw hl m pre post segs h2
+  exact ⟨segs, col, h1, h3, h4⟩
+
+/-- **Twig pruning does not depend on the order in which `_break_segments` lists the small segments** (the
+igraph variant iterates a set): the Python path of `prune_twigs` fed with any permutation of the small
+segments removes the same nodes and returns the same table as the C12 model. -/
+theorem prune_twigs_segment_order_independent (t : Table) (len : Int → Int → Nat) (size : Nat) (mask : Option (List Int))
+    (segs : List (List Int)) (h : segs.Perm (smallSegments t)) :
+    (twigDeleteFrom t segs len size mask).Perm (twigDelete t len size mask) ∧
+      pruneTwigsOnceFrom t segs len size mask = pruneTwigsOnce t len size mask := by
+  have hp : (twigDeleteFrom t segs len size mask).Perm (twigDelete t len size mask) := by
+    unfold twigDeleteFrom twigDelete terminalSegsFrom terminalSegs
+    exact ((h.filter _).filter _).flatMap_right _
+  refine ⟨hp, ?_⟩
+  unfold pruneTwigsOnceFrom pruneTwigsOnce
+  have hemp : (twigDeleteFrom t segs len size mask).isEmpty = (twigDelete t len size mask).isEmpty := by
+    have hl := hp.length_eq
+    cases ha : twigDeleteFrom t segs len size mask with
+    | nil =>
+      rw [ha] at hl
+      have : twigDelete t len size mask = [] := List.length_eq_zero_iff.mp hl.symm
+      rw [this]
+    | cons a as =>
+      rw [ha] at hl
+      cases hb : twigDelete t len size mask with
+      | nil => rw [hb] at hl; simp at hl
+      | cons b bs => rfl
+  have hcon : (fun i => !(twigDeleteFrom t segs len size mask).contains i) = fun i => !(twigDelete t len size mask).contains i := by
+    funext i
+    by_cases hi : i ∈ twigDelete t len size mask
+    · simp [hi, hp.mem_iff.mpr hi]
+    · have : i ∉ twigDeleteFrom t segs len size mask := fun h' => hi (hp.mem_iff.mp h')
+      simp [hi, this]
+  simp only [hemp, hcon]
+
+/-- … in particular with the igraph variant's list, for every iteration order of its seed set. -/
+theorem prune_twigs_igraph_eq_model (t : Table) (hw : WF t) (hl : labelsOKB t = true) (len : Int → Int → Nat) (size : Nat)
+    (mask : Option (List Int)) (seeds : List Nat) (hs : seeds.Perm (SegVar.seedsIdx t)) :
+    ∃ segs, SegVar.breakIgraphFrom t seeds = some segs ∧
+      pruneTwigsOnceFrom t segs len size mask = pruneTwigsOnce t len size mask := by
+  obtain ⟨segs, h1, h2⟩ := break_segments_igraph_perm_model t hw hl seeds hs
+  exact ⟨segs, h1, (prune_twigs_segment_order_independent t len size mask segs h2).2⟩
+
+/-- … and with the networkx variant's list (which is the model's list itself). -/
+theorem prune_twigs_nx_eq_model (t : Table) (hw : WF t) (hl : labelsOKB t = true) (len : Int → Int → Nat) (size : Nat)
+    (mask : Option (List Int)) :
+    ∃ segs, SegVar.breakNx t = some segs ∧ pruneTwigsOnceFrom t segs len size mask = pruneTwigsOnce t len size mask :=
+  ⟨smallSegments t, break_segments_nx_eq_model t hw hl,
+    (prune_twigs_segment_order_independent t len size mask _ (List.Perm.refl _)).2⟩
+
+/-- The model's Strahler index reads the ignore list only as a set. -/
+theorem strahler_ignore_list_as_set (t : Table) (g : Bool) (ign ign' : List Int)
+    (h : ∀ x, ign.contains x = ign'.contains x) (i : Int) : strahler t g ign i = strahler t g ign' i := by
+  have hraw : ∀ f j, strahlerRaw t g ign f j = strahlerRaw t g ign' f j := by
+    intro f
+    induction f with
+    | zero => intro j; rfl
+    | succ f ih =>
+      intro j
+      rw [Flow.strahlerRaw_succ, Flow.strahlerRaw_succ, h j]
+      have : (children t j).map (strahlerRaw t g ign f) = (children t j).map (strahlerRaw t g ign' f) :=
+        List.map_congr_left fun c _ => ih c
+      rw [this]
+  unfold strahler
+  simp only [hraw, h]
+
+/-- **The Python sweep reads `to_ignore` only as a set**: two ignore lists with the same members (order,
+repetitions, how `min_twig_size` enumerated the short twigs — e.g. from the igraph variant's small segments)
+give the same column, for every pair of pop orders. -/
+theorem strahler_sweep_ignore_as_set (t : Table) (hw : WF t) (hl : labelsOKB t = true) (g : Bool) (ign ign' : List Int)
+    (hign : ∀ l ∈ ign, l ∈ ids t → l ∈ Sweep.endNodes t) (h : ∀ x, ign.contains x = ign'.contains x)
+    (pick pick' : Sweep.St → Nat) :
+    ∃ col col', Sweep.sweep t g ign pick = some col ∧ Sweep.sweep t g ign' pick' = some col' ∧
+      ∀ i ∈ ids t, col i = col' i := by
+  have hign' : ∀ l ∈ ign', l ∈ ids t → l ∈ Sweep.endNodes t := by
+    intro l hl' hi
+    have : l ∈ ign := by
+      have := h l
+      simp only [List.contains_eq_mem, hl', decide_true, decide_eq_true_eq] at this
+      exact this
+    exact hign l this hi
+  obtain ⟨col, h1, h2⟩ := strahler_sweep_ignore_partial t hw hl g ign hign pick
+  obtain ⟨col', h1', h2'⟩ := strahler_sweep_ignore_partial t hw hl g ign' hign' pick'
+  exact ⟨col, col', h1, h1', fun i hi => by rw [h2 i hi, h2' i hi, strahler_ignore_list_as_set t g ign ign' h i]⟩
+
+/-- **`strahler_index(min_twig_size=k)` does not depend on the order of `x.small_segments`** (igraph: a set's
+order): with any permutation of the small segments the Python path returns the model's index for
+`ign ++ shortTwigs t k`, for every pop order. -/
+theorem strahler_sweep_min_twig_segment_order (t : Table) (hw : WF t) (hl : labelsOKB t = true) (g : Bool) (ign : List Int)
+    (k : Nat) (hk : k ≠ 0) (hign : ∀ l ∈ ign, l ∈ ids t → l ∈ Sweep.endNodes t) (segs : List (List Int))
+    (hp : segs.Perm (smallSegments t)) (pick : Sweep.St → Nat) :
+    ∃ col, Sweep.sweep t g (ignoreListFrom t segs ign k) pick = some col ∧
+      ∀ i ∈ ids t, col i = strahler t g (ign ++ shortTwigs t k) i := by
+  have hperm : (ignoreListFrom t segs ign k).Perm (Sweep.ignoreList t ign k) := by
+    unfold ignoreListFrom Sweep.ignoreList
+    rw [if_neg hk, if_neg hk]
+    exact (hp.filterMap _).append_left ign
+  have hset : ∀ x, (Sweep.ignoreList t ign k).contains x = (ignoreListFrom t segs ign k).contains x := by
+    intro x
+    by_cases hx : x ∈ Sweep.ignoreList t ign k
+    · simp [hx, hperm.mem_iff.mpr hx]
+    · have : x ∉ ignoreListFrom t segs ign k := fun h' => hx (hperm.mem_iff.mp h')
+      simp [hx, this]
+  obtain ⟨col, col', h1, h2, h3⟩ := strahler_sweep_ignore_as_set t hw hl g _ _ (Sweep.ignoreList_ends ign k hign) hset pick pick
+  obtain ⟨c0, e1, e2⟩ := strahler_sweep_min_twig t hw hl g ign k hk hign pick
+  rw [h1] at e1
+  have : col = c0 := Option.some.inj e1
+  subst this
+  exact ⟨col', h2, fun i hi => by rw [← h3 i hi, e2 i hi]⟩
+
 /-! ### Non-vacuity -/
 def ex : Table := [⟨7, 3, 0, 0, 0, .end_⟩, ⟨3, 9, 3, 0, 0, .branch⟩, ⟨9, -1, 6, 0, 0, .root⟩, ⟨4, 3, 3, 4, 0, .end_⟩]
 example : wfB ex = true ∧ labelsOKB ex = true := by decide
@@ -402,5 +865,10 @@ example : componentsByRoot exC = [[0, 7], [2, 1], [5]] ∧ componentsByClosure e
 example : geoRowLabelsPython ex [4, 7, 4] = [7, 4] ∧ geoRowLabelsFastcore ex [4, 7, 4] = [4, 7] := by decide
 example : rerootPathIgraph exS 6 = some [6, 4, 5, 0] ∧ rerootPathIgraph exS 7 = some [7, 2] ∧
     rerootPathIgraph exS 9 = some [9] := by decide
+
+/-! non-vacuity of the history theorems -/
+example : (([Op.reroot 6, Op.cutDistal 4, Op.subset [4, 6, 5]] : List Op).foldl (applyOpBE .igraph) exS) =
+    ([Op.reroot 6, Op.cutDistal 4, Op.subset [4, 6, 5]] : List Op).foldl applyOp exS := by decide
+example : rerootIgraph exS 6 = reroot exS 6 ∧ (ids (reroot exS 6)).length = 9 := by decide
 
 end Navis.Props.C04
